@@ -894,7 +894,7 @@ def c04(ctx):
 
 
 # --------------------------------------------------------------------------- schemas
-NTYPES = 41
+NTYPES = 42
 
 
 def sg_cfg(mode, shard, nshards, mutevery, wide=False):
